@@ -23,7 +23,7 @@ ASSUMPTIONS = [
     "at most k states more than the minimal reference automaton",
     "element 'metadata' is judged against 'at most one child of any name' (C05), not its empty children section",
 ]
-REQUIRED = ["validations_on_reused_parent_object", "collecting_calls_with_prefilled_list", "failfast_accept", "failfast_reject", "collecting_accept", "collecting_reject", "oracle_crosschecks"]
+REQUIRED = ["validations_of_nested_parent", "foreign_children_with_prefix", "validations_on_reused_parent_object", "collecting_calls_with_prefilled_list", "failfast_accept", "failfast_reject", "collecting_accept", "collecting_reject", "oracle_crosschecks"]
 EXHAUSTIVE = {"quick": False, "thorough": False}
 
 FOREIGN_NAME = "verifForeignElement"
@@ -125,7 +125,15 @@ def judge(ctx, rule_name, element, seq, expected, stats=None, reuse=False):
             parent = _reused_parent(rule_name, element, names)
             ctx.count("validations_on_reused_parent_object")
         else:
-            parent = emlkit.make_node(rule_name, element, names)
+            # a third of the parents hang below a grandparent (as inside a document); foreign children sometimes carry a
+            # namespace prefix (a prefixed stranger is still a stranger)
+            nested = (len(seq) + len(element or "")) % 3 == 0
+            pref = {i: ("dc", "stmml", "eml")[i % 3] for i, a in enumerate(seq) if a == relang.FOREIGN and (i + len(seq)) % 2 == 0}
+            parent = emlkit.make_node(rule_name, element, names, nested=nested, child_prefix=pref)
+            if nested:
+                ctx.count("validations_of_nested_parent")
+            if pref:
+                ctx.count("foreign_children_with_prefix")
         errs = None if mode == "failfast" else []
         prefilled = mode == "collecting" and (len(seq) + len(rule_name)) % 2 == 1
         if prefilled:
